@@ -49,6 +49,7 @@ RESIDS = "ensures.residue_numbers_of_input_molecule"
 COORDS = "ensures.coordinates_equal_exchange_map_of_input_molecule"
 SMALLREF = "ensures.small_reference_distances_scaled"
 CROSS = "ensures.grofile_crossread_agrees"
+AGAIN = "ensures.second_extrapolation_on_the_same_manager_satisfies_the_same_contract"
 CC_KEYS = "complete_correspondence.keys_are_species_with_both_resolutions"
 MAPS_SET = "calculate_exchange_maps.every_complete_species_gets_a_map"
 ADD_END = "add_end_molecule.accepts_species_of_the_system"
@@ -581,6 +582,20 @@ def run_case(files, model, load_order, subset, scale, workdir, keep=None):
         c_ok, c_det = _crossread(out, text)
         R[CROSS] = (_info(c_ok), c_det, True)        # GroFile's reader has its own contracts (C13/C14): informational here
         _rm(out)
+        # ---- the statement holds for EVERY extrapolation: a second one on the same manager (same maps) must satisfy the same contract
+        #      (atom numbers from 1 again, same molecules, same title and box) -- state kept between calls would show here
+        out2 = os.path.join(workdir, "out_again.gro")
+        _rm(out2)
+        _, e = _call(manager.extrapolate_system, out2)
+        if e is not None or not os.path.isfile(out2):
+            R[AGAIN] = (False, f"second call: exception={type(e).__name__ if e is not None else None}({e}) file_written={os.path.isfile(out2)}", True)
+        else:
+            with open(out2, encoding="utf-8", errors="replace") as f:
+                text2 = f.read()
+            R2 = evaluate_output(model, set(subset), text2, expected, scale)
+            bad2 = [(cl, v[1]) for cl, v in R2.items() if v[0] is False and R.get(cl, (True,))[0] is not False]
+            R[AGAIN] = (not bad2, "second call on the same manager: " + "; ".join(f"{cl}: {d_}" for cl, d_ in bad2[:2]), True)
+        _rm(out2)
         return R
     finally:
         del manager, system
